@@ -57,6 +57,12 @@ def scenario(workdir):
     items = [rec, kwd(**{"from": 0, "class": "", "b": False, "_generated": t0}),
              GroupedRecord("smoke/grp", [inner(s="g", ts=t0, _generated=t0), kwd(**{"from": 7, "class": "c", "b": True, "_generated": t0})])]
 
+    # values that carry nothing but their flavour / their unset parts
+    from flow.record.fieldtypes import command as _command
+    part = RecordDescriptor("smoke/partial", [("command", "wc"), ("command", "pc"), ("command[]", "cl"), ("digest", "d1"), ("digest", "d2")])
+    items.append(part(wc=_command.from_windows(None), pc=_command.from_posix(None), cl=[_command.from_windows(None), "ls"],
+                      d1=(None, None, "e3b0c442" * 8), d2=(None, "da39a3ee5e6b4b0d3255bfef95601890afd80709", None), _generated=t0))
+
     def describe(x):
         if isinstance(x, GroupedRecord):
             return ["group", x.name, [describe(m) for m in x.records]]
